@@ -51,7 +51,7 @@ REQUIRED_PROBES = ['corrupt_sa', 'corrupt_R', 'corrupt_T', 'corrupt_X', 'corrupt
                    'check_after_unrelated_derive', 'two_adapters_in_one_execution',
                    'neutral_tweak_point_offered', 'signature_extension_configured_by_prefix',
                    'negated_adapter_scalar', 'negated_nonce_point',
-                   'tweak_point_equals_nonce_point'] + \
+                   'tweak_point_equals_nonce_point', 'tweak_point_equals_signer_key'] + \
     ['variant_' + v for v in VARIANTS]
 
 
@@ -125,6 +125,8 @@ def gen_exchange(rng, cell):
           # the tweak scalar happens to be (is chosen to be) the signer's own nonce for
           # this message, so that T == R: still a tweak scalar like any other
           'tweak_is_nonce': rng.chance(1, 10),
+          # ... or the signer's own private scalar, so that T == X
+          'tweak_is_key': rng.chance(1, 20),
           # one builder exchange in five runs under a signature-extension plugin that is
           # configured through the sign / witness script prefix
           'sigext': rng.choice([None, None, None, None, '01', '02', 'ff'])
@@ -280,6 +282,7 @@ class Ex:
                 self.ext_code = T.compile_script(self.ext_src)
                 self.m = sig_message(ext_fields(self.sf, self.ext), int(self.flags, 16))
         self.tweak_is_nonce = False
+        self.tweak_is_key = False
         if spec.get('tweak_is_nonce'):
             # the library derives the nonce from (seed, message) alone and leaves it in
             # the cache (b'r') unless that caching flag is off
@@ -295,6 +298,18 @@ class Ex:
                 self.t_eff = scalar_to_int(clamp255(r)) % L
                 self.T = base_mult(int_to_scalar(self.t_eff))
                 self.tweak_is_nonce = True
+        if spec.get('tweak_is_key') and not self.tweak_is_nonce:
+            try:
+                _, st0, _ = F.run_script(pb(self.seed) + T.compile_script('derive_scalar'))
+                x = st0.get()
+            except LIB_ERRORS:
+                x = None
+            if isinstance(x, bytes) and len(x) == 32 and \
+                    base_mult(int_to_scalar(scalar_to_int(clamp255(x)) % L)) == self.X:
+                self.t = x
+                self.t_eff = scalar_to_int(clamp255(x)) % L
+                self.T = self.X
+                self.tweak_is_key = True
         self.T_at_A = None
         self.sent = None            # (R, sa) as produced by A
         self.sent_for_T = None
@@ -458,6 +473,8 @@ def execute(plan, run):
         run.probe('variant_' + e.v)
         if e.tweak_is_nonce:
             run.probe('tweak_point_equals_nonce_point')
+        if e.tweak_is_key:
+            run.probe('tweak_point_equals_signer_key')
         tc = e.spec['tweak_class']
         if tc in ('one', 'Lm1', 'Lp1', 'bit255'):
             run.probe('edge_scalar_' + tc)
